@@ -93,10 +93,49 @@ def _strip_logs(body):
     return [s for s in body if _call_name(s) != "self.log"]
 
 
+ALLOWED_DECORATORS = {
+    "__init__": ["allowed_mesh_types(SurfaceMesh)"],
+    "has_features": ["property"], "output_mesh": ["property"], "cut_graph": ["property"],
+}
+
+
+def check_signatures(src, tree, parts):
+    """decorators and defaults of every method of SingularityCutter: no memoisation, no mutable default.
+    Unknown decorator / non-constant default / unknown method => fail closed."""
+    cls = T.find_def(tree, CLS, REL)
+    if [ast.unparse(b) for b in cls.bases] != ["Worker"] or cls.decorator_list or cls.keywords:
+        T.fail(REL, cls, "SingularityCutter is not a plain subclass of Worker")
+    names = []
+    for node in cls.body:
+        if isinstance(node, ast.Expr) and isinstance(node.value, ast.Constant) and isinstance(node.value.value, str):
+            continue
+        if not isinstance(node, ast.FunctionDef):
+            T.fail(REL, node, "class-level statement in SingularityCutter (shared state between cutters?)")
+        names.append(node.name)
+        deco = [ast.unparse(d) for d in node.decorator_list]
+        if deco != ALLOWED_DECORATORS.get(node.name, []):
+            T.fail(REL, node, "unexpected decorators %s on %s" % (deco, node.name))
+        a = node.args
+        if a.vararg or a.kwarg or a.posonlyargs:
+            T.fail(REL, node, "unexpected parameter kinds on %s" % node.name)
+        for d in list(a.defaults) + [k for k in a.kw_defaults if k is not None]:
+            if not (isinstance(d, ast.Constant) and (d.value is None or isinstance(d.value, (bool, int, float, str)))):
+                T.fail(REL, d, "default value of a parameter of %s is not an immutable constant" % node.name)
+    init = T.find_def(tree, CLS + ".__init__", REL)
+    params = [x.arg for x in init.args.args]
+    defaults = [ast.unparse(d) for d in init.args.defaults]
+    if params != ["self", "mesh", "singularities", "features", "verbose"] or defaults != ["None", "False"]:
+        T.fail(REL, init, "constructor is not (self, mesh, singularities, features=None, verbose=False)")
+    parts.append(("class signatures", T.sha(src, cls)[:16] if False else
+                  __import__("hashlib").sha256(" ".join(names).encode()).hexdigest()[:16]))
+    return names
+
+
 def gen():
     src, tree = T.load(REL)
     parts = []
     out = []
+    check_signatures(src, tree, parts)
 
     # ------------------------------------------------------------------ _build_mesh_with_cuts
     fn = T.find_def(tree, CLS + "._build_mesh_with_cuts", REL)
@@ -391,6 +430,13 @@ Definition cut0_keep (visited : bool) : bool := negb visited.
     fn = T.find_def(tree, CLS + ".run", REL)
     parts.append(("run", T.sha(src, fn)))
     body = _strip_logs(T.body_nodoc(fn))
+    # leading `self._output_mesh = None` / `self._cut_graph = None` / `self.ref_vertex = None` (results of an earlier run dropped)
+    resets = []
+    while body and isinstance(body[0], ast.Assign) and len(body[0].targets) == 1 \
+            and T.dotted(body[0].targets[0]) in ("self._output_mesh", "self._cut_graph", "self.ref_vertex") \
+            and isinstance(body[0].value, ast.Constant) and body[0].value.value is None:
+        resets.append(T.dotted(body[0].targets[0]))
+        body = body[1:]
     if not (len(body) == 1 and isinstance(body[0], ast.If) and _is_attr(body[0].test, "self.has_features")):
         T.fail(REL, fn, "run is not `if self.has_features: ... else: ...`")
     if [_call_name(x) for x in _strip_logs(body[0].body)] != ["self._run_with_features"] or \
